@@ -80,7 +80,7 @@ def two_class_single(name, family, c=1, K=2, T=20.0, prios=(0, 1), preempt=False
 # ------------------------------------------------------------------------------------------------
 # shared focused families (used by several properties)
 # ------------------------------------------------------------------------------------------------
-def noserver_upstream_block(tier, fam="F-noserver-block", ps=True):
+def noserver_upstream_block(tier, fam="F-noserver-block", ps=True, preempt=True):
     """infinite-server / slotted / PS node feeding a full finite node, simultaneous service ends (batches)"""
     K = 2 if tier == "quick" else 3
     out = []
@@ -89,6 +89,8 @@ def noserver_upstream_block(tier, fam="F-noserver-block", ps=True):
            ("ps", {"c": "inf", "ps": True})]
     for name, nk in ups:
         if name == "ps" and not ps:
+            continue
+        if name == "slotted-cap-resume" and not preempt:
             continue
         up = dict(nk)
         up.setdefault("cap", None)
